@@ -48,6 +48,7 @@ type c12State struct {
 	closedAtRet bool
 	raaSent     int
 	raaHandled  int
+	localAddr   bool
 	note        []string
 }
 
@@ -111,6 +112,16 @@ func c12Scenarios(tier string) []*Scenario {
 				}
 			}
 		}
+		if R == 0 {
+			// no configured host addresses: the CER carries the connection's local address
+			c12LocalAddr = true
+			sc := append([]c12Act{}, silent...)
+			sc[0] = c12Act{Kind: "success", Delay: 0}
+			la := c12Scenario(R, sc, []string{"raa"}, bound)
+			la.Name += "/local-address"
+			out = append(out, la)
+			c12LocalAddr = false
+		}
 		if thorough && R >= 1 && R <= 2 {
 			// two answering indexes
 			for k1 := 0; k1 <= R; k1++ {
@@ -152,7 +163,11 @@ func c12Scenario(R int, script []c12Act, extras []string, bound int) *Scenario {
 
 // c12ScenarioSlow: slow[k] is the virtual time the k-th transport Write takes (a peer or
 // transport that is slow to take the CER off the wire).
+// c12LocalAddr: no HostIPAddresses configured - the CER must carry the connection's local address.
+var c12LocalAddr = false
+
 func c12ScenarioSlow(R int, script []c12Act, extras []string, bound int, slow []time.Duration) *Scenario {
+	localAddr := c12LocalAddr
 	body := func() {
 		st := &c12State{}
 		c12st = st
@@ -162,6 +177,11 @@ func c12ScenarioSlow(R int, script []c12Act, extras []string, bound int, slow []
 		st.conn = conn
 		settings := &sm.Settings{OriginHost: "cli", OriginRealm: "test", VendorID: 13, ProductName: "prod", FirmwareRevision: 7,
 			HostIPAddresses: []datatype.Address{datatype.Address(net.ParseIP("10.0.0.2")), datatype.Address(net.ParseIP("10.0.0.3"))}}
+		if localAddr {
+			settings.HostIPAddresses = nil
+			settings.OriginStateID = 77
+		}
+		st.localAddr = localAddr
 		mach := sm.New(settings)
 		mach.HandleFunc("RAA", func(c diam.Conn, m *diam.Message) { st.raaHandled++; vs.Event("application handler got RAA") })
 		cli := &sm.Client{Handler: mach, Dict: dict.Default, MaxRetransmits: uint(R), RetransmitInterval: c12Interval,
@@ -297,7 +317,7 @@ func c12ScenarioSlow(R int, script []c12Act, extras []string, bound int, slow []
 			}
 		}
 		if len(st.cers) > 0 {
-			if s := c12CheckCER(st.cers[0]); s != "" {
+			if s := c12CheckCER(st.cers[0], st.localAddr); s != "" {
 				v = append(v, "CER content: "+s)
 			}
 		}
@@ -384,7 +404,7 @@ func firstAt(st *c12State, kind string) time.Duration {
 
 // c12CheckCER checks that the CER carries the configured identity, addresses and every
 // application the client was told to advertise (parsed with the reference codec).
-func c12CheckCER(raw []byte) string {
+func c12CheckCER(raw []byte, localAddr bool) string {
 	h, _ := refcodec.DecodeHeader(raw)
 	if h.Code != 257 || h.Flags&0x80 == 0 || h.App != 0 {
 		return fmt.Sprintf("header code=%d flags=%#x app=%d", h.Code, h.Flags, h.App)
@@ -406,8 +426,12 @@ func c12CheckCER(raw []byte) string {
 		return "Origin-Host cli missing"
 	case !has(296, []byte("test")):
 		return "Origin-Realm test missing"
-	case !has(257, refcodec.Address(1, []byte{10, 0, 0, 2})) || !has(257, refcodec.Address(1, []byte{10, 0, 0, 3})):
+	case !localAddr && (!has(257, refcodec.Address(1, []byte{10, 0, 0, 2})) || !has(257, refcodec.Address(1, []byte{10, 0, 0, 3}))):
 		return "configured Host-IP-Address 10.0.0.2 / 10.0.0.3 missing"
+	case localAddr && !has(257, refcodec.Address(1, []byte{10, 1, 2, 3})):
+		return "no host addresses are configured, so the CER must carry the connection's local address 10.1.2.3"
+	case localAddr && !has(278, refcodec.U32(77)):
+		return "configured Origin-State-Id 77 missing"
 	case !has(258, refcodec.U32(4)):
 		return "Auth-Application-Id 4 missing"
 	case !has(259, refcodec.U32(3)):
